@@ -185,6 +185,7 @@ def whileBaseline : List (String × String × String × String) := [
   ("xpath30/xpath30_helpers.py", "parse_datetime_marker", "pch != '#' and (not pch.isdigit())", "argued: index decreases over a finite string"),
   ("xpath31/_xpath31_operators.py", "nud__square_array_constructor", "True", "argued: each iteration parses one member; advance consumes or raises at (end)"),
   ("xpath_context.py", "iter_product", "True", "argued: odometer over finitely many finite selectors; returns when the first is exhausted"),
+  ("xpath30/_xpath30_functions.py", "evaluate__path", "node is not None and node is not context.root", "argued: parent walk from the item up to the context root or to the top (added by the fn:path repair for rooted sub-tree contexts, b1f05c0): the same shape as iter_ancestors — one `.parent` step per iteration, ends at `None` on every store whose parents precede their children (Store.WF, checked on the live trees every run); no other operation in the body"),
   ("xpath_context.py", "iter_ancestors", "parent is not None", "proved: anc_loop_terminates / iter_ancestors_total on every store whose parents precede their children (EPV.C03Loops, Store.WF: document-order numbering, checked on the live trees every run; on a cyclic parent chain the loop does hang)"),
   ("xpath_context.py", "iter_preceding", "root.parent is not None", "proved: prec_loop_terminates (Store.WF; the descendants walk that follows is iter_descendants_total)"),
   ("xpath_context.py", "iter_followings", "root.parent is not None and root is not self.root", "proved: foll_loop_terminates (Store.WF)"),
